@@ -183,7 +183,23 @@ fn gen_boundary_ranges(ch: &mut Choices, a: u8) -> Vec<WRange> {
         .collect()
 }
 
+/// Addresses inside expressions cut to the unit's address size (a wider one is a different, legitimate refusal).
+fn fit_addresses(ops: Vec<WOp>, a: u8) -> Vec<WOp> {
+    let m = mask(a);
+    ops.into_iter()
+        .map(|o| match o {
+            WOp::Addr(x) => WOp::Addr(x & m),
+            WOp::EntryValue(inner) => WOp::EntryValue(fit_addresses(inner, a)),
+            o => o,
+        })
+        .collect()
+}
+
 fn gen_loc_expr(ch: &mut Choices, nentries: usize, nunits: usize, counts: &[usize]) -> Vec<WOp> {
+    if ch.chance(20) {
+        // the empty description: no location in this range (still an entry: a default location must not apply there)
+        return Vec::new();
+    }
     let mut v = gen_simple_expr(ch, 1);
     if ch.chance(80) {
         // entry references: every entry offset is known when the lists are written
@@ -358,11 +374,13 @@ fn check(ch: &mut Choices, cx: &mut Ctx) -> R {
     let mut nt = false;
     for ui in 0..nunits {
         let version = ch.pick(&[4u16, 5, 3, 2, 5, 4]);
-        let a = ch.pick(&[8u8, 4]);
+        // (two-byte addresses too: the base-selection marker of the older list sections is all ones at that width)
+        let a = ch.pick(&[8u8, 4, 8, 4, 2]);
         let format64 = ch.chance(64);
         let unit_base = match ch.below(3) {
             0 => None,
             1 => Some(0u64),
+            _ if a == 2 => Some(0x1000 + ch.below(16) as u64 * 0x100),
             _ => Some(0x1_0000 + ch.below(16) as u64 * 0x1000),
         };
         let (nr, nl) = plan[ui];
@@ -410,6 +428,16 @@ fn check(ch: &mut Choices, cx: &mut Ctx) -> R {
                 }
                 l
             };
+            let l: Vec<WLoc> = l
+                .into_iter()
+                .map(|e| match e {
+                    WLoc::OffsetPair(b, e, d) => WLoc::OffsetPair(b, e, fit_addresses(d, a)),
+                    WLoc::StartEnd(b, e, d) => WLoc::StartEnd(b, e, fit_addresses(d, a)),
+                    WLoc::StartLength(b, l, d) => WLoc::StartLength(b, l, fit_addresses(d, a)),
+                    WLoc::DefaultLocation(d) => WLoc::DefaultLocation(fit_addresses(d, a)),
+                    e => e,
+                })
+                .collect();
             locs.push(l);
         }
         for (i, l) in ranges.iter().enumerate() {
